@@ -10,6 +10,7 @@ import NdcubeModel.Model.Uncert
 import NdcubeModel.Model.Coords
 import NdcubeModel.Model.ExtraCoords
 import NdcubeModel.Model.Crop
+import NdcubeModel.Model.SeqCrop
 
 /-!
 # Line-protocol driver
@@ -658,6 +659,12 @@ def opCropItem (j : Json) : R Json := do
   let shape ← field j "shape" >>= asList asNat
   pure <| Json.mkObj [("item", exceptJson (listJson itemJson) (cropItem shape per keepdims))]
 
+def opSeqCrop (j : Json) : R Json := do
+  let ndim ← field j "ndim" >>= asNat
+  let shapes ← field j "shapes" >>= asList (asList asNat)
+  let items ← field j "items" >>= asList (asList asItem)
+  pure <| Json.mkObj [("item", listJson itemJson (seqCropItem ndim shapes items))]
+
 def dispatch (j : Json) : R Json := do
   let op ← field j "op" >>= asStr
   match op with
@@ -679,6 +686,7 @@ def dispatch (j : Json) : R Json := do
   | "slice_chain" => opSliceChain j
   | "crop" => opCrop j
   | "crop_item" => opCropItem j
+  | "seq_crop" => opSeqCrop j
   | _ => .error s!"unknown op {op}"
 
 def handleLine (line : String) : String :=
